@@ -655,7 +655,13 @@ static Type *func_params(Token **rest, Token *tok, Type *ty) {
 
 // array-dimensions = ("static" | "restrict")* const-expr? "]" type-suffix
 static Type *array_dimensions(Token **rest, Token *tok, Type *ty) {
-  while (equal(tok, "static") || equal(tok, "restrict"))
+  // In a parameter declaration the brackets may hold qualifiers and
+  // 'static', or a '*' for a variable length array of unspecified size.
+  while (equal(tok, "static") || equal(tok, "restrict") || equal(tok, "const") ||
+         equal(tok, "volatile") || equal(tok, "__restrict") || equal(tok, "__restrict__"))
+    tok = tok->next;
+
+  if (equal(tok, "*") && equal(tok->next, "]"))
     tok = tok->next;
 
   if (equal(tok, "]")) {
